@@ -171,16 +171,19 @@ DIterLH(it, X, p, c, env, lo, hi) ==
   LET o == Op(it) IN
   CASE o = "rep" -> DRep(it[2], lo, hi, X, p, c, env, 0)
     [] o = "sep" -> DSep(<<"sep", it[2], it[3], lo, hi, it[6], it[7]>>, X, p, c, env, 0, FALSE)
-    [] o \in {"cfgrep", "cfgrepmin", "cfgrepmax"} -> DRep(it[2][2], lo, hi, X, p, c, env, 0)
+    [] o \in {"cfgrep", "cfgrepmin", "cfgrepmax", "cfgreptry"} ->
+         \* a configuration that cannot be computed is a failure of the configured parser, right where it starts
+         IF o = "cfgreptry" /\ DCtxNum(c) > 2 THEN Fail({EvUser(X, p, p, p, "tc")})
+         ELSE DRep(it[2][2], lo, hi, X, p, c, env, 0)
     [] o = "enum" ->
          IF Op(it[2]) = "rep"
          THEN LET r == DRep(it[2][2], lo, hi, X, p, c, env, 0) IN
               IF r.ok THEN [r EXCEPT !.val = [i \in DOMAIN r.val |-> VP(VI(i - 1), r.val[i])]] ELSE r
          ELSE DSep(<<"sep", it[2][2], it[2][3], lo, hi, it[2][6], it[2][7]>>, X, p, c, env, 0, TRUE)
 (* a repetition configured from context matches exactly as the statically configured one (C15) *)
-ItLo(it, c) == CASE Op(it) \in {"cfgrep", "cfgrepmin"} -> DCtxNum(c) [] Op(it) = "cfgrepmax" -> it[2][3] [] Op(it) = "enum" -> it[2][IF Op(it[2]) = "rep" THEN 3 ELSE 4]
+ItLo(it, c) == CASE Op(it) \in {"cfgrep", "cfgrepmin", "cfgreptry"} -> DCtxNum(c) [] Op(it) = "cfgrepmax" -> it[2][3] [] Op(it) = "enum" -> it[2][IF Op(it[2]) = "rep" THEN 3 ELSE 4]
                  [] Op(it) = "rep" -> it[3] [] Op(it) = "sep" -> it[4]
-ItHi(it, c) == CASE Op(it) \in {"cfgrep", "cfgrepmax"} -> DCtxNum(c) [] Op(it) = "cfgrepmin" -> it[2][4] [] Op(it) = "enum" -> it[2][IF Op(it[2]) = "rep" THEN 4 ELSE 5]
+ItHi(it, c) == CASE Op(it) \in {"cfgrep", "cfgrepmax", "cfgreptry"} -> DCtxNum(c) [] Op(it) = "cfgrepmin" -> it[2][4] [] Op(it) = "enum" -> it[2][IF Op(it[2]) = "rep" THEN 4 ELSE 5]
                  [] Op(it) = "rep" -> it[4] [] Op(it) = "sep" -> it[5]
 DIter(it, X, p, c, env) == DIterLH(it, X, p, c, env, ItLo(it, c), ItHi(it, c))
 
